@@ -23,7 +23,8 @@ from ..oracles import outcome
 ID = 'C09'
 RULE = ("Hypothesis: shared conversion generator, both verdicts (valid, mutated, arbitrary), every dict/list replaced by a recording spy; "
         "snapshot-before == snapshot-after and no mutator call recorded, for from_data, convert, Cls.from_data, keyword / positional construction, "
-        "make_unchecked, from_dict_unchecked (with defaulted fields left out) and into_data of the typed result. Non-trivial = the value contains a mapping that passes through an internally tagged union, or a "
+        "make_unchecked, from_dict_unchecked (with defaulted fields left out), __replace__ on an instance (fields and set-field record of the original) "
+        "and into_data of the typed result. Non-trivial = the value contains a mapping that passes through an internally tagged union, or a "
         "dataclass mapping (aliases/duplicates/extras), or a nested container below the root; distinct by (type spec, value).")
 ASSUMPTIONS = ["mutation through a C-level API that bypasses the overridden methods of dict/list subclasses is caught by the snapshot only"]
 
@@ -115,6 +116,8 @@ def check(case: t.Any, ctx: Ctx) -> None:
             calls.append(('Cls(**named)', lambda v: T(**v)))
         if tg.is_seq(v0) and not isinstance(v0, range):
             calls.append(('Cls(*args)', lambda v: T(*v)))
+    if isinstance(nd, cg.ClsNode):
+        check_replace(nd, v0, ctx)
     for (what, f) in calls:
         v = spyify(named if what in ('Cls.from_dict_unchecked', 'Cls.make_unchecked(**kw)', 'Cls(**named)') else v0)
         before = snapshot(v)
@@ -142,6 +145,34 @@ def check(case: t.Any, ctx: Ctx) -> None:
             d = same(x, xb)
             if d is not None:
                 ctx.fail('input-unchanged', f"into_data/{nd.kind}", f"into_data(x, T) changed its argument, T = {nd.render()[:300]}: {d}")
+                return
+
+
+def check_replace(nd: t.Any, v0: t.Any, ctx: Ctx) -> None:
+    """Construction *from an instance*: obj.__replace__(field=value) builds a new instance and leaves obj - its fields and its
+    record of explicitly set fields - as it was, whether the replacement succeeds or is refused."""
+    import pane
+    T = nd.pytype()
+    (k, x0) = outcome(lambda: pane.from_data(v0, T))
+    if k != 'ok':
+        return
+    rec0 = set(getattr(x0, '__pane_set__', ()))
+    try:
+        (repr0, copy0) = (repr(x0), copy.deepcopy(x0))
+    except Exception:
+        return
+    from ..same import same
+    for f in nd.fields:
+        if not f.init or not hasattr(x0, f.name):
+            continue
+        for val in (getattr(x0, f.name), object()):
+            (kr, _) = outcome(lambda: x0.__replace__(**{f.name: val}))
+            ctx.evaluated()
+            rec1 = set(getattr(x0, '__pane_set__', ()))
+            if rec1 != rec0 or repr(x0) != repr0 or same(x0, copy0) is not None:
+                ctx.fail('input-unchanged', f"__replace__/{'unset-field' if f.name not in rec0 else 'set-field'}",
+                         f"T = {nd.render()[:300]}; x = {repr0[:150]} with set-field record {sorted(rec0)}; after x.__replace__({f.name}=...) "
+                         f"({'accepted' if kr == 'ok' else 'refused'}) x is {repr(x0)[:150]} with record {sorted(rec1)}")
                 return
 
 
